@@ -46,6 +46,15 @@ def scheduleOnePass (len n : Nat) : Except Err (List Nat) :=
   else if n = 1 then .ok (List.replicate len 1)
   else .error .valueErr
 
+/-- NumPy's `a[-n:] = b` for one-dimensional arrays: the slice is the last `n` entries — the WHOLE array when `n = 0` (`-0` is `0`)
+or `n > len(a)` —, and `b` must have the slice's length or a single entry (broadcast); anything else raises `ValueError` -/
+def npAssignTail {α : Type} (a : List α) (n : Nat) (b : List α) : Except Err (List α) :=
+  let k := if n = 0 ∨ a.length < n then a.length else n
+  if b.length = k then .ok (a.take (a.length - k) ++ b)
+  else match b with
+    | [x] => .ok (a.take (a.length - k) ++ List.replicate k x)
+    | _ => .error .valueErr
+
 inductive NLive
   | int (n : Nat)
   | arr (ns : List Nat)
